@@ -171,5 +171,12 @@ def r_random_zero(ctx, rule='R-RANDOM-ZERO'):
             return c.callee.endswith('vec::from_elem') or root(c.arg_term(0))[0] == 'arg' or \
                 any(x[0] == 'call' and x[1].endswith('Cow::<\'_, B>::to_mut') and root(x[2][0])[0] == 'arg' for x in walk(c.arg_term(0)))
         rets = [b for b, k, t in paths.ret_assigns(rf)]
-        good = bool(fills) and all(zero_arg(c) and on_param(c) for c in fills) and paths.must_pass(rf, 0, rets, [c.bb for c in fills])
+        # zero *bytes*: a zero f32 pushed through a codec is not a zero vector for every codec (0.0 quantises to bit 1)
+        def byte_level(c):
+            if c.callee.endswith('vec::from_elem'):
+                return 'u8' in (c.gnames[:1] or []) or '<u8>' in c.resolved or 'from_elem::<u8' in c.resolved
+            return True
+        recoded = [c for c in rf.calls() if c.callee.endswith(('UnalignedVectorCodec::from_slice', 'UnalignedVectorCodec::from_vec'))]
+        good = bool(fills) and all(zero_arg(c) and on_param(c) and byte_level(c) for c in fills) and not recoded \
+            and paths.must_pass(rf, 0, rets, [c.bb for c in fills])
         ctx.check(good, rule, 'reset-zeroes', rf.loc(), 'every path of reset fills the vector bytes with 0 (%d zeroing sites)' % len(fills), 'UnalignedVector::reset no longer zeroes the vector')
